@@ -119,6 +119,10 @@ class ThreadWorker(base.Worker):
 
     def accept(self, server, listener):
         try:
+            # several listeners can be ready in the same iteration:
+            # re-check the capacity for each of them
+            if self.nr_conns >= self.worker_connections:
+                return
             sock, client = listener.accept()
             # initialize the connection object
             conn = TConn(self.cfg, sock, client, server)
